@@ -190,7 +190,7 @@ ADDENDA = {
     "C06": dict(text=" The 'remove' profile (streams that lose the race with the removal of their target, targets that come back) checks that nothing registered for a refused or ended stream is offered anything later."),
     "C07": dict(text=" In scenarios with an ACL the driver also stores, through (*cache.Target).GnmiUpdate, a notification whose prefix names no target (nobody is authorised for the target \"\": no response may carry it). Whole-target removals happen under an ACL as well (the delete of a target a subscriber may not see is not for it either). Also: subscriptions to a target the cache does not know (refused as unauthenticated first, if the caller is), and an 'idle' profile with an ACL in which the last thing a sender handled "
                      "before a silence longer than the send timeout may be a denied target's notification (the stream must survive)."),
-    "C08": dict(text=" SendTimer.tla specifies the send-timeout discipline of a sender (a timer runs only while a Send is in progress; a Send that never returns ends the RPC, the sync response included) "
+    "C08": dict(text=" The race-detector stage of the quick tier also runs the overlap profile (2500 scenarios: adds below existing leaves while senders deliver them, statistics read while streams account their responses - the races repaired in 185408b and 9c1d31a). SendTimer.tla specifies the send-timeout discipline of a sender (a timer runs only while a Send is in progress; a Send that never returns ends the RPC, the sync response included) "
                      "with three mutants that must be refuted (timer left running after the sync, armed before the ACL filter, sync sent without the timer); an 'idle' profile (silences longer than the send "
                      "timeout) checks on the real server that a merely idle subscriber is never terminated."),
     "C09": dict(text=" Walk/WalkSorted hand their visitor path slices that the driver keeps until the walk has returned (as client.Leaves and the CLI do); paths up to length 5."),
